@@ -142,13 +142,6 @@ Proof.
     repeat (split; [assumption|]). unfold in_tables in *. rewrite C, D, E, G1, G2. exact H4.
 Qed.
 
-(* growing the global source table keeps the name side, and conversely *)
-Lemma sinv_names_grow st st' SP :
-  b_sources st' = b_sources st -> b_src_idx st' = b_src_idx st ->
-  b_in_src_idx st' = b_in_src_idx st -> b_in_src_val st' = b_in_src_val st ->
-  sinv st SP -> sinv st' SP.
-Proof. apply sinv_frame. Qed.
-
 (* ------------------------------------------------------------------ *)
 (* names                                                               *)
 (* ------------------------------------------------------------------ *)
